@@ -66,9 +66,9 @@ CHECKS = {
    technique="Coq proofs on the system model + correspondence on generated libraries + denotation oracle",
    design="5 C02"),
  "C12": dict(
-   text="Proof (base case): fixing a base sequence replaces each position's code by a code denoting exactly the intersection of the old and the fixed code; a wrong length and an empty intersection are errors; only the addressed sequence changes, its length is kept, and a failed or warned fix changes nothing; a starred domain is fixed through the reverse complement (5 theorems, closed). The distribution over composite objects (offsets through nested super-sequences, strands, multi-strand structures, signals bound directly or through nested systems) is the model's fix_refs / fix_signal, compared with compiler.compiler(--fixed) on generated components and system libraries and with a per-nucleotide intersection oracle over the denotation.",
-   note="Trusted: as C02 plus the harness oracle expected_fixed. Partial: the composite distribution is checked per case, not proved. Axioms: none.",
-   technique="Coq proofs on the fix model + correspondence + per-nucleotide oracle",
+   text="Proof (base case): fixing a base sequence replaces each position's code by a code denoting exactly the intersection of the old and the fixed code; a wrong length and an empty intersection are errors; only the addressed sequence changes, its length is kept, and a failed or warned fix changes nothing; a starred domain is fixed through the reverse complement. Composite case: in every well-formed component, fixing a super-sequence or strand through its nested item list (incl. complemented views of super-sequences) equals fixing the flattened base-sequence references left to right, each with its own slice of the string, and every base sequence ends with its old constraint intersected in order with exactly the slices that land on its occurrences, reverse complemented for starred ones, everything else untouched (7 theorems, closed). Structures split the string on '+' over their strands by definition of the model; signals bound directly or through nested systems are the model's fix_signal / fix_at. All of it is compared with compiler.compiler(--fixed) on generated components and system libraries and with a per-nucleotide intersection oracle over the denotation.",
+   note="Trusted: as C02 plus the harness oracle expected_fixed. The system-level routing of a signal fix (fix_at / fix_signal) is checked per case, not proved. Axioms: none.",
+   technique="Coq proofs on the fix model (base and composite) + correspondence + per-nucleotide oracle",
    design="5 C12"),
  "C03": dict(
    text="Proof (partial) on the .des model: the sequence list assigned to a structure re-reads (names through their own sequence lines, * as reverse complement, zero-length domains skipped) to exactly the nucleotides of the structure's strands in order; the auxiliary duplex of length L pairs position L-1-i of its first strand with position L+i, so its second strand is the reverse complement of its first (3 theorems, closed). Per case: model and implementation .des compared line by line on components and nested system libraries, and the constraint partition (classes with parity and allowed bases) over every position of every program structure compared between the .des incl. its auxiliary duplexes and the source denotation; targets and objective lines checked.",
